@@ -1288,6 +1288,19 @@ func replay(p string) {
 	if err := json.Unmarshal(b, &raw); err != nil {
 		harnessErr(err.Error())
 	}
+	if replayL(raw.Artefact) {
+		return
+	}
+	var rf rFail
+	if err := json.Unmarshal(raw.Artefact, &rf); err == nil && rf.Part == "R" {
+		replayR(rf)
+		return
+	}
+	var qf qFail
+	if err := json.Unmarshal(raw.Artefact, &qf); err == nil && qf.Part == "Q" {
+		replayQ(qf)
+		return
+	}
 	var wf wFail
 	if err := json.Unmarshal(raw.Artefact, &wf); err == nil && wf.Part == "W" {
 		replayW(wf)
@@ -1405,11 +1418,18 @@ func main() {
 		return
 	}
 	r := ev.New("C16", "model_checking")
+	lst := runPartL()
+	qst := runPartQ()
 	partE(r)
 	wDone := make(chan *wStats, 1)
 	go func() { wDone <- runPartW() }() // part W runs in the parent while the part-O workers are busy
+	rDone := make(chan *rStats, 1)
+	go func() { rDone <- runPartR() }() // so does part R (it mostly sleeps in the real retry back-off)
 	partO(r)
 	reportPartW(r, <-wDone)
+	reportPartL(r, lst)
+	reportPartQ(r, qst)
+	reportPartR(r, <-rDone)
 	r.Assume("coordinators are fed sequentially (no concurrent events); event delivery itself (etcd/DNS/file discovery, connection manager) is modelled by the event alphabet, not executed")
 	r.Assume("groups {g1,g2,g3} with 2/1/2 configurations, nodes {n1,n2,n3}; histories up to the reported depth; entity values inside the stated alphabet")
 	r.Assume("trusted: cespare/xxhash as the hash; pbv1.MarshalTagValue as the entity value encoding (its injectivity is C12's subject)")
